@@ -46,9 +46,12 @@ CHECKS = {
         text="MC_Conn (TLC, exhaustive): all selections of 3 sessions over 2 databases x {use-db good / "
              "bad / user token, disconnect, read}; invariant counter = number of open sessions; every "
              "history runs on the real node and TLC validates counter, $connections key and the "
-             "watcher's notifications after every step (NunKV group CONN).",
-        note="disconnect is the transports' common path (unwatch-all + Client::left) invoked directly; "
-             "socket-level disconnect detection is covered only by the HTTP runs of C20",
+             "watcher's notifications after every step (NunKV group CONN). The histories run three ways: "
+             "through process_request with the transports' common end-of-connection code, and (a sample in "
+             "the quick tier) over the real TCP server and the real WebSocket server on loopback sockets, "
+             "where a disconnect is the server's own end-of-stream / on_close handling.",
+        note="over sockets the harness waits until the node's projection is stable for 40 ms after each step; "
+             "HTTP requests are C20",
         technique="TLA+ reference spec + TLC trace validation; TLC-generated session histories",
         design="DESIGN.md §5 C17"),
     "C10": dict(
@@ -58,9 +61,10 @@ CHECKS = {
              "every line is sent to the real node from four credential states, followed by a probe "
              "write/read of another client; TLC validates the trace against Trace_Robust (every line "
              "answered value/ok/error, no panic, no poisoned lock, probe still served, rejected lines "
-             "change nothing). Seeded longer sequences and random byte strings on top.",
-        note="exploration, not a proof over all byte strings; lines enter at process_request (a panic there "
-             "is what kills an HTTP worker / TCP connection thread); dev profile",
+             "change nothing). Seeded longer sequences and random byte strings on top; a sample of the cases "
+             "also goes through the real TCP server (a panic ends the connection thread: no reply).",
+        note="exploration, not a proof over all byte strings; most lines enter at process_request (a panic "
+             "there is what kills an HTTP worker / TCP connection thread); dev profile",
         technique="TLC-enumerated input space + TLC trace validation of real runs (robustness spec)",
         design="DESIGN.md §5 C10"),
     "C20": dict(
@@ -262,11 +266,15 @@ CHECKS = {
         text="The C06 histories (sample of the NunDisk transition cover + seeded random ones, all three "
              "conflict strategies) run with NUN_STORAGE_STRATEGY = s3 and s3_patition (1, 3, 10 partitions) "
              "against an in-process S3-compatible stub (PutObject / GetObject / ListObjectsV2 over tiny_http), "
-             "also with the n-th PutObject failing once or always; TLC validates each trace against the same "
+             "also with faults: the n-th PUT request refused once (hidden by the SDK's own retry) or from then on, "
+             "every SDK attempt of the n-th PutObject operation refused (the node's own retry must upload the "
+             "same object again) or of every operation from then on; TLC validates each trace against the same "
              "reference as the disk strategy (Trace_Restore: dump after restart = dump at the last completed "
-             "snapshot incl. id and strategy; a failing upload must end the snapshot run with a report).",
-        note="stub has strong read-after-write consistency and ignores signatures / checksums; the SDK's "
-             "internal retries are opaque; one harness process per configuration; histories are samples",
+             "snapshot incl. id and strategy; a failing upload must end the snapshot run with a report, after "
+             "which every key has the value of the last completed snapshot or of the reported attempt).",
+        note="stub has strong read-after-write consistency and ignores signatures / checksums; SDK attempts of "
+             "one operation are told apart by the amz-sdk-request header; one harness process per "
+             "configuration; histories are samples",
         technique="TLA+ reference (same as disk) + TLC trace validation of real runs against an S3 stub with fault injection",
         design="DESIGN.md §5 C18"),
 }
